@@ -804,7 +804,7 @@ var verbs = []string{"%s", "%v", "%+v", "%q", "%d", "%x", "%#v", "%+s", "%+q", "
 func (x *world) observe(e, src, base error, wrapped bool) (o tr.E) {
 	isrow := make([]bool, 0, x.ns)
 	o = tr.E{"nil": e == nil, "str": []int{}, "chain": [][]int{}, "cause": []int{}, "cb": true, "hs": false,
-		"site": 0, "pvsite": 0, "pv": []tr.E{}, "asc": -1, "asty": -1, "fs": []int{}, "fv": []int{},
+		"site": 0, "pvsite": 0, "stsite": 0, "pv": []tr.E{}, "asc": -1, "asty": -1, "fs": []int{}, "fv": []int{},
 		"fbad": false, "same": wrapped && e == src}
 	defer func() {
 		if r := recover(); r != nil { // a panic while looking at the value: the spec cannot explain it
@@ -834,6 +834,24 @@ func (x *world) observe(e, src, base error, wrapped bool) (o tr.E) {
 	full := errorx.GetFullStack(e)
 	o["hs"] = full != ""
 	o["site"] = siteOfFull(full)
+	// the exported StackTrace of the first stack-carrying error of the chain: its first frame, printed with
+	// %n, names the attaching function; no verb of Frame / StackTrace panics
+	for c, n := e, 0; c != nil && n < 1000; c, n = errorx.Unwrap(c), n+1 {
+		if st, ok := c.(interface{ StackTrace() errorx.StackTrace }); ok {
+			if fr := st.StackTrace(); len(fr) > 0 {
+				name := fmt.Sprintf("%n", fr[0])
+				if strings.HasPrefix(name, "site") {
+					o["stsite"], _ = strconv.Atoi(name[len("site"):])
+				}
+				txt, _ := fr[0].MarshalText()
+				if strings.Contains(fmt.Sprintf("%v|%+v|%s|%#v|%d|%+s", fr, fr, fr, fr, fr[0], fr[0]), "PANIC=") ||
+					!strings.HasPrefix(string(txt), "main.site") {
+					o["stsite"] = -1
+				}
+			}
+			break
+		}
+	}
 	var gs grpcStatuser
 	if errorx.As(e, &gs) {
 		o["asc"] = code32(gs.GRPCStatus().Code())
@@ -1071,8 +1089,9 @@ func randTrace(w *tr.W, rng *rand.Rand, src string, global bool, nops int) {
 
 // Dedicated traces for two input classes that are kept apart from everything else, because one trace of
 // such a class ends at its first inexplicable event:
-//   reserved: a message type whose fingerprint is 0 (ErrMark) or 1 (EmptyMark) is registered
-//   alias:    the caller writes into an Empty frame it was given, then asks for another Empty frame
+//
+//	reserved: a message type whose fingerprint is 0 (ErrMark) or 1 (EmptyMark) is registered
+//	alias:    the caller writes into an Empty frame it was given, then asks for another Empty frame
 func reservedTraces(w *tr.W) {
 	for _, fp := range []uint32{0, 1} {
 		for _, np := range []int{1, 2} {
